@@ -267,19 +267,33 @@ def B8_history_tables(ctx):
     ctx.ob('B8', sc, 'scan-table', {'estimate', 'Reward', 'Snapshot', 'Unchanged'} <= kinds and not bad, '; '.join(sorted(set(w for _, w in bad))[:3]) + f' kinds={sorted(kinds)}', site=sc.loc(sc.b['lo']),
            what='writers are scanned newest-first below txid; an estimate blocks; every exact entry is an origin (with its incarnation); rewards accumulate; a snapshot (or the anchor) is the base')
     rs = ctx.fn('beneficiary::history::HistoryScan::resolve')
-    ok = False
+    # the engine turns `iter.fold(init, f)` into the loop it abbreviates, so both spellings give: next(rev(rewards)) -> apply_to(item, acc)
+    ok = cl_ok = False
+    badr = []
     for p in feasible(rs.paths()):
-        fo = [e for e in p.events if e.kind == 'call' and e.d['callee'].endswith('::fold')]
-        if fo and has_call(fo[0].d['args'][0], '::rev') and mentions_field(fo[0].d['args'][0], 'HistoryScan.rewards_newest_first') and is_field(strip(fo[0].d['args'][1]), 'HistoryScan.base'):
+        ret = [e for e in p.events if e.kind == 'ret'][0].d['value']
+        its = [a for a in p.events if a.kind == 'atom' and a.d['term'][0] == 'discr' and a.d['term'][1][0] == 'call' and a.d['term'][1][1].endswith('::next')
+               and mentions_field(a.d['term'][1], 'HistoryScan.rewards_newest_first')]
+        if not its:
+            badr.append('the collected rewards are not iterated')
+            continue
+        if not all(has_call(a.d['term'][1], '::rev') for a in its):
+            badr.append('rewards are not folded oldest-first (collected newest-first, so the iteration must be reversed)')
+        else:
             ok = True
-    cl_ok = False
-    for c in ctx.facts.closures_of(rs.name):
-        cf = ctx.fn(c)
-        for p in feasible(cf.paths()):
-            r = [e for e in p.events if e.kind == 'ret'][0].d['value']
-            if has_call(r, 'DeferredBeneficiaryReward::apply_to'):
+        ap = calls(p, 'DeferredBeneficiaryReward::apply_to')
+        if its[0].d['outcome'] == 'Some':
+            item = ('down', its[0].d['term'][1], 'Some')
+            if not ap or not mentions(ap[0].d['args'][0], item) or not is_field(strip(ap[0].d['args'][1]), 'HistoryScan.base'):
+                badr.append('the first reward is not applied to the base account')
+            elif not mentions(ret, ap[-1].d['result']):
+                badr.append('the folded account is not what resolve returns')
+            else:
                 cl_ok = True
-    ctx.ob('B8', rs, 'rewards-folded-oldest-first-with-checked-add', ok and cl_ok, f'fold over rev()={ok} apply_to in closure={cl_ok}', site=rs.loc(rs.b['lo']),
+        else:
+            if ap or not mentions_field(ret, 'HistoryScan.base'):
+                badr.append('without rewards resolve must return the base account')
+    ctx.ob('B8', rs, 'rewards-folded-oldest-first-with-checked-add', ok and cl_ok and not badr, f'iteration over rev()={ok} apply_to on base={cl_ok}; ' + '; '.join(sorted(set(badr))[:2]), site=rs.loc(rs.b['lo']),
            what='checked addition must happen in transaction order (combining rewards first differs when one addition overflows)')
     fe = ctx.fn('beneficiary::history::BeneficiaryEffect::from_execution')
     mp = set()
